@@ -131,6 +131,8 @@ STATEMENTS = [
     ('SELECT ysync(account) AS a, ysync(sum(number)) AS s, first(narration) AS f, last(date) AS l GROUP BY a', None),
     ('SELECT DISTINCT ysync(flag) AS f, csync(3) AS k ORDER BY f', None),
     ('SELECT ysync(account) AS a, other_accounts, ysync(number) AS n, other_accounts AS o2, tags, ysync(payee) AS p', None),
+    ('SELECT ysync(date) AS d, ysync(narration) AS n, flag FROM #transactions', None),
+    ('SELECT count(*) AS n, last(narration) AS l FROM #transactions', None),
 ]
 
 
@@ -216,7 +218,7 @@ def make_pair(i, j, shared, quick, thorough, nbits):
         return native(_check, (i, j), schedule, shared, bool(two) and not shared, bool(tail))
 
 
-_QUICK_PAIRS = [(0, 0), (0, 1), (1, 1), (2, 3), (3, 5), (4, 0), (6, 6), (1, 6), (7, 2), (5, 5), (4, 4), (8, 8), (8, 0)]
+_QUICK_PAIRS = [(0, 0), (0, 1), (1, 1), (2, 3), (3, 5), (4, 0), (6, 6), (1, 6), (7, 2), (5, 5), (4, 4), (8, 8), (8, 0), (9, 10), (9, 9)]
 for _i in range(len(STATEMENTS)):
     for _j in range(len(STATEMENTS)):
         if (_i, _j) in _QUICK_PAIRS:
